@@ -1188,6 +1188,7 @@ func (s *Service) processRequest(m *nats.Msg, rtype, rname, method string, mh *M
 func (s *Service) queryEventExpire(v interface{}) {
 	qe := v.(*queryEvent)
 	qe.sub.Drain()
+	close(qe.done)
 	s.runWith(qe.r.Group(), func() {
 		qe.expired = true
 		qe.cb(nil)
